@@ -15,6 +15,7 @@ pub mod health;
 pub mod web;
 pub mod richerr;
 pub mod reflect;
+pub mod codegen;
 
 /// Shared event recorder so that events survive a panic or hang of the run.
 #[derive(Clone, Default)]
@@ -55,6 +56,7 @@ fn run_one(lab: &str, stim: &Value, rec: &Rec) {
         "web" => web::run(stim, rec),
         "richerr" => richerr::run(stim, rec),
         "reflect" => reflect::run(stim, rec),
+        "codegen" => codegen::run(stim, rec),
         _ => { eprintln!("unknown lab {lab}"); std::process::exit(2) }
     }
 }
